@@ -245,7 +245,8 @@ type engaNode struct {
 	ledger Ledger
 	disk   []byte        // row 1 of the Service table (persistence.go:110); nil = no row
 	diskRound round      // player round of the state in disk (bookkeeping for labels only)
-	diskZero  bool       // disk holds the zero state written by a re-executed restored attest (see doPseudonode)
+	diskZero  bool       // disk holds a state encoded from unassigned persist fields (must never happen, see doPseudonode)
+	lastCrashRound round // ledger round at the last crash (label bookkeeping)
 	wall   time.Duration // the node's wall clock; survives crashes, set by the scheduler
 
 	lastActions []action // actions of the last transition (for observers)
@@ -278,7 +279,7 @@ type engaStats struct {
 	maxPeriod                                                                                                     period
 	maxStep                                                                                                       step
 	sawLate, sawRedo, sawDown, pipelined, stageDigest, crashAttestCommit, disconnects, zeroPersist              int
-	verifyErr, amnesiaExcluded, holds                                                                                    int
+	verifyErr, doubleCrashInRound, holds                                                                                    int
 }
 
 type engaSim struct {
@@ -301,7 +302,6 @@ type engaSim struct {
 	dedupeDelivered bool
 	keepDup         func() bool // scheduler hook: keep a copy that dedupe would drop?
 	hold            func(m *engaMsg) bool // scheduler hook: messages held back by the network for now
-	allowAmnesia    bool                  // permit the excluded double-crash class (only the known-finding reproduction sets it)
 
 	// history
 	ref      Ledger // reference ledger holding the agreed prefix
@@ -458,6 +458,9 @@ func (n *engaNode) start() {
 		} else if status.Round >= n.ledger.NextRound() { // service.go:234
 			n.clock = clock.(*engaClock) // service.go:252
 			n.router, n.player, a = router, status, acts
+			// service.go:253-258 (fix 15ee9a30f7): the restored state is what a re-executed restored attest persists
+			n.persistSet = true
+			n.persistRouter, n.persistStatus, n.persistActions = router, status, acts
 			restored = true
 		}
 	}
@@ -484,19 +487,17 @@ func (n *engaNode) start() {
 	n.armTimers()
 }
 
-// crash discards node i's volatile state. It reports whether the crash happened: with allowAmnesia unset, the class
-// "second crash while the crash DB holds the zero state written by a re-executed restored attest" is excluded by
-// construction (known finding double-crash-amnesia, reproduced separately by TestVerif_C01_KnownAmnesia).
+// crash discards node i's volatile state. It reports whether the crash happened.
 func (s *engaSim) crash(i int) bool {
 	n := s.nodes[i]
 	if !n.up {
 		return false
 	}
-	if n.diskZero && !s.allowAmnesia {
-		s.stats.amnesiaExcluded++
-		return false
-	}
 	s.stats.crashes++
+	if n.lastCrashRound == n.ledger.NextRound() && n.incarnation >= 2 {
+		s.stats.doubleCrashInRound++ // second (or later) crash of this node while still in the same round
+	}
+	n.lastCrashRound = n.ledger.NextRound()
 	// a crash between an attest and the commit of that round (label for C01's non-trivial rule)
 	if n.disk != nil && n.diskRound == n.player.Round && n.ledger.NextRound() == n.player.Round {
 		s.stats.crashAttestCommit++
@@ -821,7 +822,9 @@ func (n *engaNode) doPseudonode(a pseudonodeAction) {
 		// service.go:281-284 persistState: encodes persistRouter/persistStatus/persistActions — whatever they hold
 		raw := encode(n.clock, n.persistRouter, n.persistStatus, n.persistActions, false)
 		if !n.persistSet {
-			s.stats.zeroPersist++
+			// only a restored attest can run before the first persistent transition, and start() assigns the persist
+			// fields on the restore path exactly like service.go:253-258 does
+			s.failf("harness bug: attest executed with unassigned persist fields at node %d", n.id)
 		}
 		req := &engaPersistReq{round: n.persistStatus.Round, period: n.persistStatus.Period, step: n.persistStatus.Step, raw: raw, done: done, zero: !n.persistSet}
 		// asyncPersistenceLoop.pending has capacity 1 and the loop holds one more (persistence.go:321,358): a third
